@@ -118,6 +118,9 @@ class FnTranslator:
         self.rng_used = 0
         self.rng_prim = None
         self.choice = None
+        self.n_leaves = 0
+        self.leaf_paths = []
+        self.path = []
         self.literals = []
         self.structs = structs if structs is not None else {}      # struct name -> {member: kind} (insertion ordered)
         self.partial_fns = partial_fns if partial_fns is not None else set()
@@ -505,7 +508,9 @@ class FnTranslator:
                 if not self.partial:
                     raise Unsupported("%s: tail call to %s from a function not marked partial" % (self.where(s), fn))
                 return [pad + "%s fuel %s" % (fn, self.call_args(fn, c))]
-            return [pad + self.ret(self.expr(e))]
+            self.n_leaves += 1
+            self.leaf_paths.append(" ∧ ".join(self.path) or "always")
+            return [pad + self.ret(self.expr(e)) + LEAF_MARK]
         if k == "DeclStmt":
             lines = []
             for v in s["inner"]:
@@ -599,8 +604,12 @@ class FnTranslator:
             el = self.flatten(inner[2]) if len(inner) > 2 else []
             th_full = th if self.terminates(th) else th + rest
             el_full = el if (el and self.terminates(el)) else el + rest
-            lines = [pad + "if %s then" % c] + self.block(th_full, ind + 1, scope) + [pad + "else"] + self.block(el_full, ind + 1, scope)
-            return lines
+            self.path.append(c)
+            th_lines = self.block(th_full, ind + 1, scope)
+            self.path[-1] = "¬" + c
+            el_lines = self.block(el_full, ind + 1, scope)
+            self.path.pop()
+            return [pad + "if %s then" % c] + th_lines + [pad + "else"] + el_lines
         if k == "ForStmt":
             return self.for_loop(s, rest, ind, scope)
         if k in ("DoStmt", "WhileStmt"):
@@ -724,7 +733,24 @@ class FnTranslator:
             head = "/-- `%s` (%s:%s)%s -/\ndef %s %s%s : %s :=" % (
                 self.name, self.cfile, line, note, self.name, "(fuel : Nat) " if self.partial else "", self.binders(params),
                 "Option α" if self.partial else "α")
-        return "".join(h + "\n" for h in self.helpers) + head + "\n" + "\n".join(lines) + "\n", kinds
+        twin = ""
+        self.has_leaf_twin = False
+        if all(kd in ("d", "rng") for kd in kinds) and not self.partial and not self.helpers:
+            # branch monitor: the same decision tree returning the number of the `return` statement reached (in source order
+            # along the translated tree); the driver reports it next to the value so that the L0 monitors' coverage is per branch
+            n, tl = 0, []
+            for ln in lines:
+                if ln.endswith(LEAF_MARK):
+                    tl.append(ln[:len(ln) - len(ln.lstrip())] + str(n)); n += 1
+                else:
+                    tl.append(ln)
+            twin = "/-- which `return` of `%s` is reached (branch monitor; numbered in the order of the translated tree) -/\ndef %s_leaf (%s : α) : Nat :=\n%s\n\n" % (
+                self.name, self.name, " ".join("u" if self.vkind[p] == "rng" else self.ident(p) for p in params), "\n".join(tl))
+            self.has_leaf_twin = True
+            self.n_leaves = n
+        lines = [ln[:-len(LEAF_MARK)] if ln.endswith(LEAF_MARK) else ln for ln in lines]
+        helpers = [h.replace(LEAF_MARK, "") for h in self.helpers]
+        return "".join(h + "\n" for h in helpers) + head + "\n" + "\n".join(lines) + "\n" + ("\n" + twin if twin else ""), kinds
 
     def collect(self, n, kind):
         out = []
@@ -736,6 +762,7 @@ class FnTranslator:
         return out
 
 
+LEAF_MARK = "\x00LEAF"
 RNG_PRIMS = ("esl_rnd_UniformPositive", "esl_rnd_Gamma", "esl_rnd_Gaussian")
 
 HEADER = """import EaselModel.Dist.Num
@@ -758,7 +785,7 @@ def translate_all(src_dir, plan):
     structs = {}
     partial_fns = set()
     chunks = []
-    info = {"functions": [], "literals": set(), "rng_prim": {}}
+    info = {"functions": [], "literals": set(), "rng_prim": {}, "leaves": {}}
     for cfile, filt, names in plan:
         docs = clang_docs(src_dir, cfile, filt)
         resolve_files(docs, cfile)
@@ -777,6 +804,9 @@ def translate_all(src_dir, plan):
             chunks.append(text)
             info["functions"].append(nm)
             info["literals"].update(t.literals)
+            if t.has_leaf_twin:
+                info["leaves"][nm] = t.n_leaves
+                info.setdefault("leaf_paths", {})[nm] = list(t.leaf_paths)
             if t.rng_prim or t.choice:
                 info["rng_prim"][nm] = [x for x in (("esl_rnd_DChoose" if t.choice else None), t.rng_prim) if x]
     info["literals"] = sorted(info["literals"])
@@ -792,6 +822,13 @@ def translate_all(src_dir, plan):
         if scalar(nm) and nm not in partial_fns:
             xs = ["x%d" % i for i in range(len(known[nm]))]
             disp.append('  | "%s", [%s] => some (%s %s)' % (nm, ", ".join(xs), nm, " ".join(xs)))
+    disp.append("  | _, _ => none")
+    disp += ["", "/-- name → number of the `return` reached (branch monitor) -/",
+             "def dispatchLeaf (name : String) (a : List α) : Option Nat :=", "  match name, a with"]
+    for nm in info["functions"]:
+        if nm in info["leaves"]:
+            xs = ["x%d" % i for i in range(len(known[nm]))]
+            disp.append('  | "%s", [%s] => some (%s_leaf %s)' % (nm, ", ".join(xs), nm, " ".join(xs)))
     disp.append("  | _, _ => none")
     if partial_fns or any(not scalar(nm) for nm in info["functions"]):
         disp += ["", "/-- name → translated loop-containing function (`some none` = fuel exhausted) and the generic-API wrappers",
